@@ -2197,6 +2197,7 @@ private:
         size16_t arg = uninitialized16;
 
         size8_t has_sr_conflict = 0;
+        size8_t has_rr_conflict = 0;
     };
 
     using lr1_parse_table = parse_table_entry[state_count_cap][symbol_count];
@@ -2351,6 +2352,7 @@ private:
                     if (ri.r_idx == root_rule_idx)
                     {
                         entry.kind = parse_table_entry_kind::success;
+                        entry.has_rr_conflict = symbol_situations.size() > 1 ? 1 : 0;
                         break;
                     }
 
@@ -2808,7 +2810,9 @@ private:
 
             size_t term_idx = i - nterm_count;
             s << "On " << term_names[term_idx];
-            if (entry.kind == parse_table_entry_kind::success)
+            if (entry.kind == parse_table_entry_kind::success && entry.has_rr_conflict)
+                s << " R/R CONFLICT - !!! FIX IT !!! \n";
+            else if (entry.kind == parse_table_entry_kind::success)
                 s << " success \n";
             else if (entry.kind == parse_table_entry_kind::reduce && entry.has_sr_conflict)
                 s << " S/R CONFLICT, prefer reduce(" << gi.rule_infos[entry.arg].r_idx << ") over shift\n";
